@@ -478,8 +478,9 @@ class OpsMixin:
             offending |= c - {"ok"}
         self.ev("op_call", "cancel", pr.idx, tuple(ids), issuer[0])
         kw = {}
-        if step.get("msg"):
+        if "msg" in step:
             kw["msg"] = step["msg"]
+            self.sit["cancel_with_msg"] += 1
         try:
             pr.obj.cancel(*ids, **kw)
         except Exception as e:  # noqa: BLE001
@@ -587,7 +588,7 @@ class OpsMixin:
         sitn = self.spawner_situation(pr, rq) if rq is not None else "n/a"
         snap = self.snapshot(pr) if rq is None else None
         self.ev("op_call", "cancel_group", pr.idx, name, issuer[0])
-        kw = {"msg": step["msg"]} if step.get("msg") else {}
+        kw = {"msg": step["msg"]} if "msg" in step else {}
         try:
             pr.obj.cancel_group(name, **kw)
         except Exception as e:  # noqa: BLE001
@@ -627,7 +628,7 @@ class OpsMixin:
                 return  # would cancel the issuer's own group from inside its own spawner
         self.ev("op_call", "cancel_all", pr.idx, issuer[0])
         sits = [self.spawner_situation(pr, pr.live_groups[n]) for n in names]
-        kw = {"msg": step["msg"]} if step.get("msg") else {}
+        kw = {"msg": step["msg"]} if "msg" in step else {}
         try:
             pr.obj.cancel_all(**kw)
         except Exception as e:  # noqa: BLE001
@@ -800,7 +801,7 @@ class OpsMixin:
         if self.pending_work(pr) or pr.cb_in_progress or pr.flushes:
             self.sit["probe.skipped"] += 1
             return
-        if pr.size_changed:
+        if pr.size_changed and (not final or pr.L):
             return
         if pr.locked:
             if not final:
